@@ -155,6 +155,10 @@ def power_on(ctx, eng, ce, prop="C26", invariants=True, wiring=True, two=False, 
                 checked.add("same-object:" + n)
                 if not same(a, c):
                     fail("same-object:" + n, pc)
+            # the cartridge controller is built around the very clock object the bus steps every machine cycle
+            checked.add("same-object:controller's-clock-is-the-mapper's-rtc")
+            if not any(ev[0] == "newMBC" and len(ev[1]) > 1 and same(ev[1][1], mp["rtc"]) for ev in b.events):
+                fail("same-object:controller's-clock-is-the-mapper's-rtc", pc)
             checked.add("mapper-has-oam-serial-rtc")
             if not all(isinstance(mp[k], Ptr) and mp[k].obj is not None for k in ("oam", "serial", "rtc")):
                 fail("mapper-has-oam-serial-rtc", pc)
@@ -292,15 +296,20 @@ def controller_lemma(ctx, eng, ce, two=True):
         rtc = ww.new_object(p.under(f.params[1]["t"])["elem"], tag + "rtc")
 
         def h_prom(e, s, args, site):
-            return [(s, World(e, s).sym(p.func("memory.prepareROM").results[0], tag + "pages", "ext:%spages" % tag, ()))]
+            r = World(e, s).sym(p.func("memory.prepareROM").results[0], tag + "pages", "ext:%spages" % tag, ())
+            builder_calls.append(("prepareROM", tag, s.pcond(), list(args), r))
+            return [(s, r)]
 
         def h_pram(e, s, args, site):
-            return [(s, World(e, s).sym(p.func("memory.prepareRAM").results[0], tag + "rambanks", "ext:%srambanks" % tag, ()))]
+            r = World(e, s).sym(p.func("memory.prepareRAM").results[0], tag + "rambanks", "ext:%srambanks" % tag, ())
+            builder_calls.append(("prepareRAM", tag, s.pcond(), list(args), r))
+            return [(s, r)]
         eng.abstract = dict(eng.abstract)
         eng.abstract.update({"memory.prepareROM": h_prom, "memory.prepareRAM": h_pram})
         outs = eng.call_function(st_, f.name, [rom, rtc])
         return rom, rtc, outs
     eng.terminals, eng.obligs = [], []
+    builder_calls = []
     rom, rtc, outs = mk("", st)
     lem.covers.append(("lemma:controller#cover", z3.Or(*[s.pcond() for s, _ in outs]) if outs else z3.BoolVal(False)))
     ct = ce.ev.eval(vsl.parse("rom[0x147]"), {"rom": vsl.TV(rom, ce.ev.ty_of(f.params[0]["t"]))}, st, st).v
@@ -316,6 +325,46 @@ def controller_lemma(ctx, eng, ce, two=True):
         glob |= reachable(s, v, set()) & pre_objs
     lem.add("lemma:controller:kind-follows-the-header-type-byte", z3.Or(*wrong) if wrong else z3.BoolVal(True), info={"detail": "kinds %s" % kinds})
     lem.add("lemma:controller:all-five-kinds-constructible", z3.BoolVal(set(kinds) != set(KIND)), info={"detail": "kinds %s" % kinds})
+    # the page builders are abstract here (C08/C09 verify them against their arguments): what they are GIVEN, and that
+    # the controller keeps exactly what they returned, is this lemma's business
+    from engine.core import SliceV
+    hdr = lambda k: ce.ev.eval(vsl.parse("rom[%d]" % k), {"rom": vsl.TV(rom, ce.ev.ty_of(f.params[0]["t"]))}, st, st).v
+    badargs, nprom, npram = [], 0, 0
+    for (nm, tag, pc, args, r) in builder_calls:
+        if tag:
+            continue
+        if nm == "prepareRAM":
+            npram += 1
+            ok = z3.And(args[0] == hdr(0x147), args[1] == hdr(0x149)) if len(args) == 2 and all(z3.is_expr(a) for a in args) else z3.BoolVal(False)
+        else:
+            nprom += 1
+            img = args[1] if len(args) == 2 else None
+            same = isinstance(img, SliceV) and isinstance(rom, SliceV) and img.obj == rom.obj and img.path == rom.path
+            ok = z3.And(args[0] == hdr(0x148), img.off == rom.off, img.len == rom.len) if same and z3.is_expr(args[0]) else z3.BoolVal(False)
+        badargs.append(z3.And(pc, z3.Not(ok)))
+    lem.add("lemma:controller:page-builders-get-the-header-size-bytes-and-the-image", z3.Or(*badargs) if badargs else z3.BoolVal(True),
+            info={"detail": "prepareROM calls %d (romSize = image[0x148], the whole image), prepareRAM calls %d (cartType = image[0x147], ramSize = image[0x149])" % (nprom, npram)})
+    HAS = {"none": (False, False), "mbc1": (True, True), "mbc2": (True, False), "mbc3": (True, True), "mbc5": (True, True)}
+    notkept = []
+    for (s, v) in outs:
+        if not isinstance(v, Iface) or v.t is None:
+            continue
+        tn = p.tname(v.t).replace("*memory.", "")
+        rs = reachable(s, v, set())
+        for fld, bname in (("rom", "prepareROM"), ("ram", "prepareRAM")):
+            if not HAS.get(tn, (False, False))[0 if fld == "rom" else 1]:
+                continue
+            try:
+                fv = ce.ev.eval(vsl.parse("m." + fld), {"m": vsl.TV(v.v, ce.ev.ty_of(v.t))}, s, s).v
+            except Exception as ex:
+                notkept.append("%s.%s unreadable: %s" % (tn, fld, ex))
+                continue
+            rr = [r for (nm, tag, pc, args, r) in builder_calls if nm == bname and not tag]
+            # each abstract builder call returns a fresh object, so holding it means being on the path that made the call
+            if not (isinstance(fv, SliceV) and any(isinstance(r, SliceV) and fv.obj == r.obj and fv.path == r.path
+                                                   and z3.is_true(z3.simplify(z3.And(fv.off == r.off, fv.len == r.len))) for r in rr)):
+                notkept.append("%s.%s is not the slice %s returned" % (tn, fld, bname))
+    lem.add("lemma:controller:controller-keeps-exactly-the-built-pages-and-banks", z3.BoolVal(bool(notkept)), info={"detail": "; ".join(sorted(set(notkept))) or "rom/ram fields of mbc1, mbc3, mbc5 and rom of mbc2 are the builders' results"})
     lem.add("lemma:controller:references-no-package-level-object", z3.BoolVal(bool(glob)), info={"detail": "package-level objects reachable from a new controller: %s" % sorted(glob)})
     if two:
         shared = set()
